@@ -121,15 +121,17 @@ def pairProps (g : Globals) (old new : List Stmt) (obs : List SExp) : Verdict :=
     let readerRegion : Option String := (Scope.c05 g dbOld old).orElse fun _ => Scope.c05 g dbNew new
     let readerRegion := if g.dialect == .mysql then none else readerRegion
     let withReader := fun (r : Option String) => r.orElse fun _ => readerRegion
-    -- inside the executable scope of the whole-schema theorems (Proofs/ScopeB.lean) nothing is excused
+    -- inside the executable scope of the whole-schema theorems (Proofs/ScopeB.lean) nothing is excused — except, now that
+    -- the scope includes foreign keys, a failure that disappears when the engine's referential checks are switched off:
+    -- the theorems are about `c01 … false` / `c02 … false`, the statement order across tables is the recorded finding
     let pU := Scope.Proved.up g old new dbOld dbNew
     let pD := Scope.Proved.down g old new dbOld dbNew
     let unlessProved := fun (p : Bool) (r : Option String) => if p then none else r
     let provedNote := fun (pid : String) (p : Bool) => (if p then { items := [s!"proved[{pid}]"] } else okV : Verdict)
     ({ items := [s!"scope[{Scope.Proved.whyNot g old new dbOld dbNew}]"] } : Verdict).and <|
     (provedNote "C01" pU).and <| (provedNote "C02" pD).and <| (provedNote "C03" (pU && pD)).and <|
-    (judge "C01" (unlessProved pU (ordering r01 (withReader (Scope.c01 g dbOld dbNew old new)))) (r01 true)).and <|
-    (judge "C02" (unlessProved pD (ordering r02 (withReader (Scope.c02 g dbOld dbNew old new)))) (r02 true)).and <|
+    (judge "C01" (if pU then ordering r01 none else ordering r01 (withReader (Scope.c01 g dbOld dbNew old new))) (r01 true)).and <|
+    (judge "C02" (if pD then ordering r02 none else ordering r02 (withReader (Scope.c02 g dbOld dbNew old new))) (r02 true)).and <|
     (judge "C03" (unlessProved (pU && pD) (withReader (Scope.c03 g dbOld dbNew old new))) r03).and <|
     let r10 : Check := do
       let skip := isPanic (o "up") || isPanic (o "upCase") || isPanic (o "down") || isPanic (o "downCase")
